@@ -172,6 +172,7 @@ func TestVerifC13(t *testing.T) {
 	t.Logf("phase equal %.1fs", time.Since(t0).Seconds())
 	t0 = time.Now()
 	c13TCP(r)
+	c13TCPHostile(r)
 	t.Logf("phase tcp %.1fs", time.Since(t0).Seconds())
 	t0 = time.Now()
 	c13Robust(r)
@@ -325,6 +326,140 @@ func c13TCP(r *verifkit.Run) {
 			w.Count("tcp.frames", int64(len(desc)))
 			w.Count("tcp.reads", int64(conn.reads))
 			w.Case(len(desc) > 1 && conn.reads > 1, hex.EncodeToString(stream)+fmt.Sprint(cuts))
+		}
+	})
+}
+
+// c13TCPHostile feeds streams with broken framing (oversized length words, truncated tails,
+// garbage) and hostile handshakes; the reference walks the stream by the documented
+// framing rule: 4-byte little-endian length, at most MaxTCPFrameBody.
+func c13TCPHostile(r *verifkit.Run) {
+	n := r.N(3000, 150000)
+	workers := 4
+	r.Parallel(workers, "tcp-hostile", func(w *verifkit.Worker) {
+		rnd := w.Rnd
+		for i := 0; i < n/workers; i++ {
+			var stream []byte
+			var want []c13Metric
+			wantErr := false
+			for k, nk := 0, rnd.IntN(5); k < nk && !wantErr; k++ {
+				switch rnd.IntN(6) {
+				case 0: // a length word above the limit: the loop must stop with an error
+					stream = binary.LittleEndian.AppendUint32(stream, uint32(MaxTCPFrameBody)+1+rnd.Uint32N(1<<31))
+					wantErr = true
+				case 1: // empty frame
+					stream = binary.LittleEndian.AppendUint32(stream, 0)
+				case 2: // garbage frame of a valid length
+					g := make([]byte, rnd.IntN(40))
+					for j := range g {
+						g[j] = byte(rnd.Uint32())
+					}
+					if len(g) >= 4 && binary.LittleEndian.Uint32(g) == 0x56580239 {
+						g[0] = 0
+					}
+					direct := &c13Recorder{keep: true}
+					var db tlstatshouse.AddMetricsBatchBytes
+					var ds []byte
+					if c13ExpectFormat(g) == "msgpack" {
+						if giant, _, _, _ := c13MsgpackGiantHeader(g, nil); giant {
+							continue // the pre-allocation finding belongs to part 3
+						}
+					}
+					_ = c13NewParser().p.parse(direct, nil, g, &db, &ds, "")
+					stream = binary.LittleEndian.AppendUint32(stream, uint32(len(g)))
+					stream = append(stream, g...)
+					want = append(want, direct.metrics...)
+				default:
+					b := c13GenBatchN(rnd, 1+rnd.IntN(2))
+					e := c13EncodeAll(rnd, &b)[0]
+					if len(e.pkt) > 65535 {
+						continue
+					}
+					direct := &c13Recorder{keep: true}
+					var db tlstatshouse.AddMetricsBatchBytes
+					var ds []byte
+					_ = c13NewParser().p.parse(direct, nil, e.pkt, &db, &ds, "")
+					stream = binary.LittleEndian.AppendUint32(stream, uint32(len(e.pkt)))
+					stream = append(stream, e.pkt...)
+					want = append(want, direct.metrics...)
+				}
+			}
+			if !wantErr && rnd.IntN(3) == 0 { // a tail that never completes: header fragment or a frame cut short
+				if rnd.IntN(2) == 0 {
+					stream = append(stream, make([]byte, 1+rnd.IntN(3))...)
+				} else {
+					stream = binary.LittleEndian.AppendUint32(stream, uint32(10+rnd.IntN(1000)))
+					stream = append(stream, 1, 2, 3)
+				}
+			}
+			var cuts []int
+			for left := len(stream); left > 0 && rnd.IntN(2) == 0; {
+				c := 1 + rnd.IntN(1+len(stream)/2)
+				cuts = append(cuts, c)
+				left -= c
+			}
+			conn := &c13ChunkConn{data: append([]byte{}, stream...), cuts: cuts}
+			rec := &c13Recorder{keep: true}
+			var lerr error
+			wit := func() any { return map[string]any{"stream_hex": c13Hex(stream), "cuts": cuts, "expect_framing_error": wantErr} }
+			if r.Guard("C13/tcp/panic", wit, func() { lerr = (&TCP{}).receiveLoop(nil, rec, &serverConn{conn: conn}, "") }) {
+				continue
+			}
+			switch {
+			case wantErr && lerr == nil:
+				r.Violation("C13/tcp/oversized-frame-accepted", "a length word above MaxTCPFrameBody did not end the connection with an error", wit())
+			case !wantErr && lerr != nil:
+				r.Violation("C13/tcp/loop-error", "receive loop failed on a stream without framing errors: "+lerr.Error(), wit())
+			default:
+				if field, detail := c13Diff(want, rec.metrics); field != "" {
+					r.Violation("C13/tcp/"+field, "a stream with empty, garbage and cut frames delivered a different "+field+" than its frames parsed one by one: "+detail, wit())
+				}
+			}
+			w.Count("tcp.hostile_streams", 1)
+			w.Case(len(stream) > 4, hex.EncodeToString(stream)+fmt.Sprint(cuts))
+
+			// ---- handshake
+			var hs []byte
+			wantHost, wantFail := "", false
+			switch rnd.IntN(6) {
+			case 0:
+				hs = []byte{TCPMagicV1Default}
+			case 1, 2:
+				host := make([]byte, rnd.IntN(300))
+				for j := range host {
+					host[j] = byte(rnd.Uint32())
+				}
+				hs = append([]byte{TCPMagicV2Balancer}, binary.LittleEndian.AppendUint32(nil, uint32(len(host)))...)
+				hs = append(hs, host...)
+				wantHost = string(host)
+				if rnd.IntN(3) == 0 && len(hs) > 1 { // cut short
+					hs = hs[:1+rnd.IntN(len(hs)-1)]
+					wantFail = true
+				}
+			case 3:
+				hs = append([]byte{TCPMagicV2Balancer}, binary.LittleEndian.AppendUint32(nil, uint32(MaxTCPFrameBody)+1+rnd.Uint32N(1<<31))...)
+				wantFail = true
+			case 4:
+				hs = []byte{byte(rnd.Uint32())}
+				wantFail = hs[0] != TCPMagicV1Default && hs[0] != TCPMagicV2Balancer
+				if !wantFail {
+					continue
+				}
+			default:
+				wantFail = true // empty
+			}
+			var gotHost string
+			var herr error
+			hwit := func() any { return map[string]any{"handshake_hex": c13Hex(hs)} }
+			if r.Guard("C13/tcp/handshake-panic", hwit, func() {
+				gotHost, herr = readTCPHandshake(&c13ChunkConn{data: append([]byte{}, hs...), cuts: []int{1, 2, 1}})
+			}) {
+				continue
+			}
+			if wantFail != (herr != nil) || (!wantFail && gotHost != wantHost) {
+				r.Violation("C13/tcp/handshake", fmt.Sprintf("handshake: want failure=%v host=%q, got err=%v host=%q", wantFail, wantHost, herr, gotHost), hwit())
+			}
+			w.Count("tcp.handshakes", 1)
 		}
 	})
 }
